@@ -261,12 +261,23 @@ func genC20(t *rapid.T) c20Case {
 		if s < nseg {
 			m := pick(t, "marker", []string{"</head", "<link", "<style", "<script", "</HEAD>", "<LiNk rel=x>", "<Style>", "<SCRIPT src=a>",
 				"</hea", "<lin", "<styl", "<scrip", "< link", "<\x00link", "</head</head", "<sCRIPT",
-				"<<script", "a<<LINK", "1<</HEAD", "<<<style", "\x1cscript", "\x1clink", "\x1cstyle", "<\x0fhead", "\x1c\x0fhead", "<\x0fHEAD", "<scr\x49pt", "<l\x09nk", "<SCR\u0130PT", "<scr\u0131pt"})
+				"<<script", "a<<LINK", "1<</HEAD", "<<<style", "\x1cscript", "\x1clink", "\x1cstyle", "<\x0fhead", "\x1c\x0fhead", "<\x0fHEAD", "<scr\x49pt", "<l\x09nk", "<SCR\u0130PT", "<scr\u0131pt",
+				// ordinary tags that are no markers
+				"<html>", "<body>", "<BODY class=x>", "<!DOCTYPE html>", "<head>", "<div>", "</body>", "<html><body>", "<title>"})
 			body = append(body, m...)
 		}
 	}
 	if len(body) > 48*1024 {
 		body = body[:48*1024]
+	}
+	if chance(t, "body-is-a-gzip-stream", 15) {
+		// the document itself is a complete gzip stream (a download, or a server compressing twice)
+		var buf bytes.Buffer
+		zw := gzip.NewWriter(&buf)
+		_, _ = zw.Write(body[:min(len(body), 4096)])
+		_, _ = zw.Write([]byte("<html><head><script>inner</script></head></html>"))
+		_ = zw.Close()
+		body = buf.Bytes()
 	}
 	c := c20Case{Body: body, Gzip: chance(t, "gzip", 4), CSP: chance(t, "csp", 4)}
 	if chance(t, "stale-length", 4) {
